@@ -107,9 +107,9 @@ func TestC19Query(t *testing.T) {
 	rec := vstat.New(propertyID, "query")
 	known := openClass(rec, classQueryEdgeSlash, func(input json.RawMessage) error {
 		sc := probeQueryEdgeSlash
-		var rec QueryScenario
-		if len(input) > 0 && json.Unmarshal(input, &rec) == nil && rec.edgeSlash() {
-			sc = rec
+		var recorded QueryScenario
+		if len(input) > 0 && json.Unmarshal(input, &recorded) == nil && recorded.edgeSlash() {
+			sc = recorded
 		}
 		_, err := runQuery(&sc)
 		return err
@@ -147,9 +147,9 @@ func TestC19Equal(t *testing.T) {
 	rec := vstat.New(propertyID, "equal")
 	known := openClass(rec, classEqualNilDouble, func(input json.RawMessage) error {
 		sc := probeEqualNilDouble
-		var rec EqualScenario
-		if len(input) > 0 && json.Unmarshal(input, &rec) == nil && rec.nilDouble() {
-			sc = rec
+		var recorded EqualScenario
+		if len(input) > 0 && json.Unmarshal(input, &recorded) == nil && recorded.nilDouble() {
+			sc = recorded
 		}
 		_, err := runEqual(&sc)
 		return err
